@@ -1050,6 +1050,11 @@ def run_e2e(case):
 # --------------------------------------------------------------------------- entry points
 
 E2E_CORPUS = [
+    # the peer's PAKE arrives corrupted (fix 6e06ee8: scared instead of an internal failure); messages queued behind it
+    dict(kind="e2e", seed=5, deleg=[False, True],
+         ops=[["open", 0], ["api", 0, "set_code", CODE], ["api", 0, "send", "a0"], ["settle"], ["open", 1],
+              ["api", 1, "send", "b0"], ["api", 1, "set_code", CODE], ["c2s", 1], ["c2s", 1], ["s2c", 1], ["s2c", 1], ["s2c", 1],
+              ["s2c", 1], ["c2s", 1], ["scare", 1, 0], ["settle"], ["api", 0, "send", "a1"], ["settle"]]),
     # phase 1 parked in B's reorder buffer, then B closes (three ways): B's application must not see it
     close_case([1, 0, 2], 1, "close", [False, False]),
     close_case([1, 2, 0], 2, "close", [False, True]),
